@@ -422,8 +422,9 @@ func indexInWindow(w []straceEvent, ev straceEvent) int {
 func TestC10WriteOffsets(t *testing.T) {
 	rec := stats.For("C10", "offsets")
 	tl := newC10Tools(t)
-	every := envInt("VERIF_C10_OFFSET_STRIDE", 7)
+	stride := envInt("VERIF_C10_OFFSET_STRIDE", 7)
 	rapid.Check(t, func(t *rapid.T) {
+		every := stride
 		newSpec, oldSpec := c10Specs(t)
 		enc := rapid.SampledFrom([]string{".json", ".yaml"}).Draw(t, "encoding")
 		initial := rapid.SampledFrom([]string{"empty-dir", "old-file", "old-file-and-bystander"}).Draw(t, "initial")
@@ -440,6 +441,10 @@ func TestC10WriteOffsets(t *testing.T) {
 			t.Fatalf("VERIF-HARNESS reference write failed: %v %s", err, out)
 		}
 		full, _ := os.ReadFile(filepath.Join(s.dir, target))
+		// at most ~150 offsets per case in the quick tier (stride 1 = every offset in the thorough tier)
+		if every > 1 && len(full)/every > 150 {
+			every = len(full) / 150
+		}
 		start := rapid.IntRange(0, every-1).Draw(t, "firstOffset")
 		for n := start; n <= len(full)+1; n += every {
 			s := c10Prepare(t, root, initial, target, oldSpec)
